@@ -325,12 +325,15 @@ def oracle_vqe_history(ctx, L, init, ops):
     strings = [tuple(s) for s in init["strings"]]
     op = mk_pauli_op_w(strings)
     sh = {"nocc": init["nocc"], "exc": init["exc"], "x0": list(init["x0"]), "state": occ_state(L, init["nocc"])}
+    if init.get("vec") is not None:            # a general (real) initial vector, possibly spanning several particle sectors
+        sh["state"] = np.array(init["vec"], dtype=float) / np.linalg.norm(init["vec"])
 
     def mk_opt(x0):
         return qib.algorithms.vqe.Optimizer(x0=np.array(x0, dtype=float), method="COBYLA", tol=1e-3, options={"maxiter": len(x0) + 10})
     solv = qib.algorithms.vqe.VQE(ansatz=qib.algorithms.vqe.ansatz.qUCC(field, excitations=sh["exc"], embedding="jordan_wigner"),
                                   optimizer=mk_opt(sh["x0"]), initial_state=np.array(sh["state"]), measure_method="statevector")
     nrun, last_change = 0, "construction"
+    changed_since_run = True
     results = []
 
     def inp_of(k):
@@ -353,7 +356,11 @@ def oracle_vqe_history(ctx, L, init, ops):
                 ctx.fail("history:VQE: reported energy != psi^dagger P psi for the CURRENT operator, ansatz and initial state, " + tag,
                          inp_of(k), repr(e_ref), repr(e))
                 break
-            emin = sector_min(P, L, sh["nocc"])
+            # the ansatz conserves the particle number and the operators of a history do too: the energy is the mixture, over
+            # the sectors the initial state has weight in, of energies each bounded below by that sector's lowest eigenvalue
+            occ = np.array([bin(i).count("1") for i in range(2 ** L)])
+            wsec = {int(n_): float(np.sum(np.abs(sh["state"][occ == n_]) ** 2)) for n_ in range(L + 1)}
+            emin = sum(w_ * sector_min(P, L, n_) for n_, w_ in wsec.items() if w_ > 1e-14) / sum(wsec.values())
             if e.real < emin - 1e-8 * scale:
                 ctx.fail("history:VQE: reported energy undercuts the lowest eigenvalue of the current operator in the sector, " + tag,
                          inp_of(k), emin, e.real)
@@ -371,6 +378,16 @@ def oracle_vqe_history(ctx, L, init, ops):
                 if complex(r0.fun) != e0 or not np.array_equal(np.asarray(r0.x), x0_):
                     ctx.fail("history:VQE: a result handed out by an earlier run was changed by a later run", inp_of(k))
                     break
+        elif m[0] == "secondary_same":
+            # the energy of the last run IS the expectation of the same operator at the optimal parameters
+            if nrun and not changed_since_run:
+                vals = solv.expectation_secondary_ops([op])
+                e_last = results[-1][1]
+                if vals is None or abs(complex(vals[0]) - e_last) > 1e-7 * max(1.0, abs(e_last)):
+                    ctx.fail("history:VQE: res.fun != expectation_secondary_ops of the same operator right after the run",
+                             inp_of(k), repr(e_last), repr(vals))
+                    break
+            continue
         elif m[0] == "secondary":
             sec = [tuple(s) for s in m[1]]
             vals = solv.expectation_secondary_ops([mk_pauli_op_w(sec)])
@@ -400,6 +417,9 @@ def oracle_vqe_history(ctx, L, init, ops):
         elif m[0] == "init_amps":
             sh["state"] = sector_state(L, sh["nocc"], m[1])
             solv.initial_state = np.array(sh["state"])
+        elif m[0] == "init_vec":                # a general real vector over the whole space (several particle sectors)
+            sh["state"] = np.array(m[1], dtype=float) / np.linalg.norm(m[1])
+            solv.initial_state = np.array(sh["state"])
         elif m[0] == "ansatz":
             sh["exc"], sh["x0"] = m[1], list(m[2])
             solv.ansatz = qib.algorithms.vqe.ansatz.qUCC(field, excitations=m[1], embedding="jordan_wigner")
@@ -409,8 +429,9 @@ def oracle_vqe_history(ctx, L, init, ops):
             solv.optimizer.x0 = np.array(m[1], dtype=float)
         else:
             raise ValueError(m)
+        changed_since_run = m[0] not in ("run", "run_temp")
         if m[0] not in ("run", "run_temp"):
-            last_change = {"op_add": "add_pauli_string on the same operator object", "op_scale": "weights of the same operator object changed",
+            last_change = {"init_vec": "initial_state replaced by a superposition of particle sectors","op_add": "add_pauli_string on the same operator object", "op_scale": "weights of the same operator object changed",
                            "op_drop": "a string removed from the same operator object", "op_new": "another operator object",
                            "init": "initial_state replaced", "init_inplace": "initial_state changed in place",
                            "init_amps": "initial_state replaced", "ansatz": "ansatz replaced", "x0": "optimizer.x0 replaced"}[m[0]]
@@ -479,6 +500,7 @@ def oracle_qucc_history(ctx, L, exc, plist):
     inp = {"kind": "qucc-history", "L": L, "exc": exc, "plist": [[float(p) for p in ps] for ps in plist]}
     buf = np.array(plist[0], dtype=float)
     held = []
+    N = ref_number(L)
     for k, ps in enumerate(plist):
         buf[:] = ps
         held.append((ans.as_matrix(buf), ref_qucc(L, exc, ps), k))
@@ -489,6 +511,65 @@ def oracle_qucc_history(ctx, L, exc, plist):
                                                    if k0 == k else "matrix handed out earlier was changed by a later call"),
                          dict(inp, plist=inp["plist"][:k + 1], obtained_at_call=k0), None, "%.3g" % dev)
                 return
+        # the property itself on the matrix of THIS call (whatever the object was asked before), and a fresh object
+        Uk = held[-1][0].toarray()
+        here = dict(inp, plist=inp["plist"][:k + 1], obtained_at_call=k)
+        dev = np.abs(Uk @ Uk.conj().T - np.eye(2 ** L)).max()
+        if dev > 1e-8:
+            ctx.fail("history:qUCC(%s): matrix of a later call on one ansatz object not unitary" % exc, here, "||U U^dag - 1|| = 0", "%.3g" % dev)
+            return
+        dev = np.abs(Uk @ N - N @ Uk).max()
+        if dev > 1e-8:
+            ctx.fail("history:qUCC(%s): matrix of a later call on one ansatz object does not commute with the particle number" % exc, here,
+                     "[U, N] = 0", "%.3g" % dev)
+            return
+        Uf = qib.algorithms.vqe.ansatz.qUCC(mk_field(L), excitations=exc, embedding="jordan_wigner").as_matrix(np.array(ps, dtype=float)).toarray()
+        dev = np.abs(Uk - Uf).max()
+        if dev > 1e-10:
+            ctx.fail("history:qUCC(%s): a re-used ansatz object gives another matrix than a fresh object for the same parameters" % exc, here,
+                     "same matrix", "%.3g" % dev)
+            return
+
+
+def special_params(rng, L, exc, kind):
+    """parameter vectors for which exp(T - T^dagger) is NOT generic: zeros, equal amplitudes / a symmetric singles matrix
+    (T = T^dagger: identity), diagonal only, one-hot, amplitudes on a subset of the orbitals, tiny amplitudes"""
+    parts = []
+    for kinds in KINDS[exc]:
+        k = len(kinds)
+        a = np.zeros(k * (L,))
+        if kind == "zeros":
+            pass
+        elif kind == "equal":
+            a[...] = rng.choice([1.0, 0.5, -0.75])
+        elif kind == "symmetric":
+            m = np.array([rng.uniform(-1, 1) for _ in range(L ** k)]).reshape(k * (L,))
+            a = m + m.transpose(tuple(reversed(range(k))))                # t_ij = t_ji / t_ijkl = t_lkji: T Hermitian
+        elif kind == "diagonal":
+            for i in range(L):
+                a[(i,) * k] = rng.uniform(-1, 1)
+        elif kind == "one-hot":
+            idx = tuple(rng.randrange(L) for _ in range(k))
+            if k == 2 and L > 1:
+                while idx[0] == idx[1]:
+                    idx = tuple(rng.randrange(L) for _ in range(k))
+            elif k == 4 and L > 1:
+                i, j = rng.sample(range(L), 2)
+                idx = rng.choice([(i, j, i, j), (i, j, j, i), (i, i, j, j), (i, j, j, j)])
+            a[idx] = rng.choice([1.0, -0.5, 0.3])
+        elif kind == "subset":
+            sub = sorted(rng.sample(range(L), max(1, L - 1)))
+            for idx in itertools.product(sub, repeat=k):
+                a[idx] = rng.uniform(-1, 1)
+        elif kind == "tiny":
+            a = np.array([rng.uniform(-1, 1) * 1e-9 for _ in range(L ** k)]).reshape(k * (L,))
+        else:
+            raise KeyError(kind)
+        parts.append(a.reshape(-1))
+    return [float(v) for v in np.concatenate(parts)]
+
+
+SPECIAL_KINDS = ["zeros", "equal", "symmetric", "diagonal", "one-hot", "subset", "tiny"]
 
 
 # ------------------------------------------------------------------------------ run
@@ -764,6 +845,33 @@ def run(ctx):
                 ops.append(["op_drop", rng.randint(0, 5)])
             ops.append([rng.choice(["run", "run", "run_temp"])])
         vh.append((L, init, ops))
+    # special FIRST parameters (the first call on the ansatz object of a VQE instance is x0): zeros, equal amplitudes, one-hot,
+    # then generic ones on the same instance; res.fun = expectation_secondary_ops of the same operator
+    ctx.rules.append("call histories with special first parameters: one qUCC object (directly, and as the ansatz of one VQE instance via "
+                     "x0) first evaluated at zeros / equal amplitudes / a symmetric or diagonal amplitude tensor / one-hot / amplitudes on "
+                     "a subset of the orbitals / 1e-9-sized amplitudes, then at generic parameters, then special again: every matrix = "
+                     "prod exp(T - T^dagger), unitary, commutes with N, equals the matrix of a fresh object; VQE with initial states "
+                     "SPANNING SEVERAL PARTICLE SECTORS (two basis states of different particle number, random real vectors over the "
+                     "whole space, switching between single-sector and mixed states on one instance): res.fun = psi^dagger P psi of the "
+                     "normalised ansatz state at res.x = expectation_secondary_ops of the same operator, never below the weighted mean "
+                     "of the sector minima, same as a fresh instance")
+    for kind in (SPECIAL_KINDS if ctx.thorough else ["zeros", "equal", "one-hot"]):
+        for exc in (("s", "d", "sd") if ctx.thorough or kind == "zeros" else ("s",)):
+            L = 2
+            init = {"strings": conserving_strings(rng, L), "nocc": 1, "exc": exc, "x0": special_params(rng, L, exc, kind)}
+            vh.append((L, init, [["run"], ["secondary_same"], ["x0", rx0(exc, L)], ["run"], ["secondary_same"],
+                                 ["x0", special_params(rng, L, exc, rng.choice(SPECIAL_KINDS))], ["run"]]))
+    mixed = [(2, [0.0, 1.0, 0.0, 1.0]),                       # |01> + |11>: one and two particles
+             (2, [1.0, 0.5, -0.5, 0.25]),                     # all three sectors
+             (3, [0, 0, 0, 1.0, 0, 0, 0, 1.0]),               # |011> + |111>
+             (3, [0, 0.6, 0, 0.8, 0, 0, 0.3, 0])]             # one- and two-particle states, largest amplitude in sector 2
+    for L, vec in mixed + [(2, [rng.uniform(-1, 1) for _ in range(4)]) for _ in range(6 if ctx.thorough else 2)] \
+            + ([(3, [rng.uniform(-1, 1) for _ in range(8)]) for _ in range(3)] if ctx.thorough else []):
+        exc = "s" if L == 3 else rng.choice(["s", "s", "sd", "d"])
+        init = {"strings": conserving_strings(rng, L), "nocc": 1, "exc": exc, "x0": rx0(exc, L), "vec": [float(v) for v in vec]}
+        other = [rng.uniform(-1, 1) for _ in range(2 ** L)]
+        vh.append((L, init, [["run"], ["secondary_same"], ["secondary", conserving_strings(rng, L)], ["init", rng.randint(1, L)], ["run"],
+                             ["init_vec", [float(v) for v in other]], ["run"], ["secondary_same"]]))
     for L, init, ops in vh:
         ctx.count("history_vqe")
         for m in ops:
@@ -827,20 +935,36 @@ def run(ctx):
             add("CHistExpect %s %s %s" % (ct.nat(n), ct.lst([e[0] if isinstance(e, tuple) else e for e in evs]),
                                            ct.lst([ct.qi(v) for v in vals])),
                 {"kind": "value-history", "n": n, "op": "expectation history", "strings": strings, "state": state, "ops": ops}, True)
+    qh = []
     for exc in ("s", "d", "sd"):
         for L in (2, 3) if exc == "s" or ctx.thorough else (2,):
             for rep in range(3 if ctx.thorough else 1):
                 cnt = nparam[exc](L)
-                plist = [[rng.uniform(-1.5, 1.5) for _ in range(cnt)] for _ in range(3)]
-                ctx.count("history_qucc_%s" % exc)
-                try:
-                    oracle_qucc_history(ctx, L, exc, plist)
-                except Exception as e:
-                    ctx.fail("history:qUCC(%s):exception:%s" % (exc, type(e).__name__), {"kind": "qucc-history", "L": L, "exc": exc, "plist": plist},
-                             None, repr(e))
-                    continue
-                ctx.evaluations += 1
-                ctx.nontriv({"kind": "qucc-history", "L": L, "exc": exc, "rep": rep, "first": plist[0][0]})
+                qh.append((exc, L, rep, [[rng.uniform(-1.5, 1.5) for _ in range(cnt)] for _ in range(3)]))
+    # special first parameters, generic ones afterwards, special again
+    for exc in ("s", "d", "sd"):
+        for L in (2, 3):
+            if L == 3 and exc != "s" and not ctx.thorough:
+                kinds = [rng.choice(SPECIAL_KINDS)]
+            else:
+                kinds = SPECIAL_KINDS
+            for kind in kinds:
+                cnt = nparam[exc](L)
+                gen = lambda: [rng.uniform(-1.5, 1.5) for _ in range(cnt)]
+                qh.append((exc, L, "first-" + kind, [special_params(rng, L, exc, kind), gen(),
+                                                     special_params(rng, L, exc, rng.choice(SPECIAL_KINDS)), gen()]))
+    for exc, L, rep, plist in qh:
+        ctx.count("history_qucc_%s" % exc)
+        if isinstance(rep, str):
+            ctx.count("history_qucc_" + rep)
+        try:
+            oracle_qucc_history(ctx, L, exc, plist)
+        except Exception as e:
+            ctx.fail("history:qUCC(%s):exception:%s" % (exc, type(e).__name__), {"kind": "qucc-history", "L": L, "exc": exc, "plist": plist},
+                     None, repr(e))
+            continue
+        ctx.evaluations += 1
+        ctx.nontriv({"kind": "qucc-history", "L": L, "exc": exc, "rep": rep, "first": plist[0][0]})
 
     ctx.log("start coq cases")
     if ok_tr:
